@@ -163,6 +163,22 @@ fn check_subtable(ctx: &Ctx, t: &Table<'_>, probes: &[u32], full_sweep: bool) {
                 }
                 seen.insert(c, g);
             }
+            // the converse, for every probed code whether or not it is a well-formed character code of the encoding: a
+            // non-zero glyph returned by a single lookup is a pair the enumeration lists ("lists exactly the pairs that
+            // single lookups return")
+            if !full_sweep {
+                let all: std::collections::BTreeSet<(u32, u16)> = v.iter().copied().collect();
+                for &c in probes {
+                    if let Ok(Ok(g)) = guard(|| observe(sub.map_glyph(c))) {
+                        if g != 0 && !all.contains(&(c, g)) {
+                            ctx.violation(&format!("C06:{}:map_glyph-returns-a-pair-that-mappings_fn-does-not-list", t.fmt), || {
+                                json!({"table": (t.desc)(), "code": c, "map_glyph": g, "wellformed_code": (t.valid)(c), "subtable_hex": mcx::hex(t.bytes)})
+                            });
+                            break;
+                        }
+                    }
+                }
+            }
             // every mapped code of the model must be listed
             for (c, g) in t.model.iter() {
                 if (t.valid)(*c) && seen.get(c) != Some(g) {
@@ -456,7 +472,9 @@ fn run_fmt2(ctx: &Ctx) {
         let mut leads: Vec<(u8, Sub2)> = Vec::new();
         let lead_bytes = [0x81u8, 0xA1, 0xFE];
         for k in 0..nlead {
-            let first = *c.of(&[0x40u8, 0xA1, 0xFE]);
+            // 0x40 / 0xA1 / 0xFE, or a range that starts at the lead byte itself (then the one-byte code equal to the
+            // lead byte, which is not a valid code, has a non-zero entry under that lead's own sub-header)
+            let first = *c.of(&[0x40u8, 0xA1, 0xFE, lead_bytes[k].min(0xFD)]);
             let n = 1 + c.pick(2);
             let n = n.min(256 - first as usize);
             leads.push((lead_bytes[k], Sub2 { first, delta: *c.of(&[0i16, 7]), entries: (0..n).map(|_| *c.of(&E)).collect() }));
@@ -467,6 +485,7 @@ fn run_fmt2(ctx: &Ctx) {
             let b = (*l as u32) << 8;
             ranges.push((b | s.first as u32, b | (s.first as u32 + s.entries.len() as u32 - 1)));
             ranges.push((b, b | 0xFF));
+            ranges.push((*l as u32, *l as u32)); // the lead byte as a one-byte code
         }
         let probes = edges(&ranges);
         let valid = |code: u32| cmapenc::fmt2_valid_code(&leads, code);
@@ -614,9 +633,12 @@ fn run_legacy(ctx: &Ctx) {
         }
     }
     // Mac Roman record (1,0) with a format 0 subtable mapping byte b -> glyph (b % 250) + 1
+    // (complete table), and a sparse one in which every third byte is unmapped: a Mac Roman character whose byte has no
+    // glyph maps to glyph 0 - it must not be retried under another code
+    for sparse in [false, true] {
     let mut arr = [0u8; 256];
     for b in 0..256usize {
-        arr[b] = (b % 250) as u8 + 1;
+        arr[b] = if sparse && b % 3 == 2 { 0 } else { (b % 250) as u8 + 1 };
     }
     let (sub, _) = cmapenc::fmt0(&arr);
     let cmap = tables::cmap_table(&[(1, 0, sub)]);
@@ -664,9 +686,10 @@ fn run_legacy(ctx: &Ctx) {
                     ctx.violation(key, || json!({"char": c, "expected": want, "got": g}));
                 }
             }
-            ctx.mark_nontrivial(H::new().str("macroman-font").get());
+            ctx.mark_nontrivial(H::new().str("macroman-font").u64(sparse as u64).get());
         }
         o => ctx.violation("C06:macroman:font-failed", || json!({"result": format!("{:?}", o.map(|x| x.map(|_| ())))})),
+    }
     }
     // Big5 record (3,4): format 4 over 16-bit Big5 codes mapping code c -> (c % 60000) + 1
     let segs = [Seg4::Delta { start: 0x20, end: 0x7E, delta: 1 }, Seg4::Delta { start: 0xA140, end: 0xF9FE, delta: 0x100 }];
